@@ -614,6 +614,46 @@ fn c10_scenario<V: VirtualFileSystem>(v: &V, backend: &str, root: &str, l: &str,
                 bad("chown(link)-acts-on-link→link-owner-unchanged", format!("{:?}", s2.nodes.get(&rl(l)).map(|n| (n.uid, n.gid))));
             }
         }
+        // the same through the builders with every recursion setting (a "single path" shortcut must not follow either)
+        for (bi, recurse) in [None, Some(false), Some(true)].iter().enumerate() {
+            let (u, g) = (20 + bi as u32, 30 + bi as u32);
+            let sb0 = snapshot();
+            let r = match v.chown_b(rl(l)) {
+                Ok(mut c) => {
+                    c = c.owner(u, g);
+                    if let Some(x) = recurse {
+                        c = c.recurse(*x);
+                    }
+                    c.exec().map_err(|e| e.to_string())
+                },
+                Err(e) => Err(e.to_string()),
+            };
+            let sb1 = snapshot();
+            if r.is_ok() {
+                if sb1.nodes.get(&tabs).map(|n| (n.uid, n.gid)) != sb0.nodes.get(&tabs).map(|n| (n.uid, n.gid)) {
+                    bad(&format!("chown_b(link,recurse={:?})-leaves-target→target-owner-changed", recurse), format!("{:?}", sb1.nodes.get(&tabs).map(|n| (n.uid, n.gid))));
+                }
+                if sb1.nodes.get(&rl(l)).map(|n| (n.uid, n.gid)) != Some((u, g)) {
+                    bad(&format!("chown_b(link,recurse={:?})-acts-on-link→link-owner-unchanged", recurse), format!("{:?}", sb1.nodes.get(&rl(l)).map(|n| (n.uid, n.gid))));
+                }
+            }
+            let r = match v.chmod_b(rl(l)) {
+                Ok(mut c) => {
+                    c = c.all(0o640);
+                    c = match recurse {
+                        Some(false) => c.no_recurse(),
+                        Some(true) => c.recurse(),
+                        None => c,
+                    };
+                    c.exec().map_err(|e| e.to_string())
+                },
+                Err(e) => Err(e.to_string()),
+            };
+            let sb2 = snapshot();
+            if r.is_ok() && sb2.nodes.get(&tabs).map(|n| n.mode) != sb1.nodes.get(&tabs).map(|n| n.mode) {
+                bad(&format!("chmod_b(link,recurse={:?})-leaves-target→target-changed", recurse), format!("{:?}", sb2.nodes.get(&tabs).map(|n| n.mode)));
+            }
+        }
         let r = v.remove(rl(l));
         let s3 = snapshot();
         if r.is_err() || s3.nodes.contains_key(&rl(l)) {
